@@ -220,6 +220,37 @@ def rule_order(ctx: Ctx) -> RuleReport:
                     rep.fail(Finding("C16-ORDER", MBOX, fi.qual, norm(n), "the address parser receives an already RFC 2047-decoded header: a decoded display name containing a comma, quote or angle bracket is split into bogus addresses or swallows the real one", line=n.lineno))
                 else:
                     rep.ok({"fn": fi.qual, "split": norm(n)})
+    # ... and across calls: a function that hands one of its parameters to the splitter must not be called with a decoded header
+    splitting = {}  # function -> indexes of parameters that reach a splitter
+    for fi in m.functions.values():
+        params = [a.arg for a in fi.node.args.args]
+        reach = set()
+        for n in walk_own(fi.node):
+            if isinstance(n, ast.Call) and (dotted(n.func) or "").split(".")[-1] in SPLITTERS:
+                for a in n.args:
+                    for x in ast.walk(a):
+                        if isinstance(x, ast.Name) and x.id in params:
+                            reach.add(params.index(x.id))
+        if reach:
+            splitting[fi.qual] = reach
+    for fi in m.functions.values():
+        tainted: set[str] = set()
+        changed = True
+        while changed:
+            changed = False
+            for n in walk_own(fi.node):
+                if isinstance(n, ast.Assign) and len(n.targets) == 1 and isinstance(n.targets[0], ast.Name) and _derived(n.value, tainted) and n.targets[0].id not in tainted:
+                    tainted.add(n.targets[0].id)
+                    changed = True
+        for c in [n for n in walk_own(fi.node) if isinstance(n, ast.Call)]:
+            callee = (dotted(c.func) or "").split(".")[-1]
+            if callee in splitting:
+                n_sites += 1
+                bad = [i for i in splitting[callee] if i < len(c.args) and _derived(c.args[i], tainted)]
+                if bad:
+                    rep.fail(Finding("C16-ORDER", MBOX, fi.qual, "decoded header passed to " + callee, f"`{short(c, 70)}` hands an already RFC 2047-decoded header to {callee}, which splits it with the address parser: a display name such as 'Müller, Anna' is split at its comma into two bogus addresses", line=c.lineno))
+                else:
+                    rep.ok({"fn": fi.qual, "call": short(c, 50), "argument": "raw header"})
     if n_sites < 2:
         raise AnalysisError(f"C16-ORDER: only {n_sites} address split sites found in the mbox extractor (2 confirmed)")
     return rep
